@@ -22,6 +22,7 @@ structure Frame {α : Type} (proj : Node → α) : Prop where
   leader : ∀ (s : Node) c, proj (s.setLeader c) = proj s
   role : ∀ (s : Node) c, proj (s.setRole c) = proj s
   closed : ∀ (s : Node) c, proj { s with closed := c } = proj s
+  popOrder : ∀ (s : Node), proj s.popOrder = proj s
 
 end Node
 end Raft
@@ -59,7 +60,7 @@ theorem fsmApplyLogTo_eq (s : Node) (n : Nat) : proj (s.fsmApplyLogTo n) = proj 
   unfold Node.fsmApplyLogTo
   split <;> try rfl
   split <;> try simp [h.panic]
-  split <;> simp [h.panic, h.fsm]
+  split <;> simp [h.panic, h.fsm] <;> split <;> simp [h.panic]
 
 theorem fsmApplyItems_eq (s : Node) (qs : List QItem) : proj (s.fsmApplyItems qs) = proj s := by
   induction qs generalizing s with
@@ -67,7 +68,8 @@ theorem fsmApplyItems_eq (s : Node) (qs : List QItem) : proj (s.fsmApplyItems qs
   | cons q qs ih =>
     unfold Node.fsmApplyItems
     simp only [ih, h.reply]
-    split <;> split <;> simp [h.fsm, h.assert_eq]
+    repeat' split
+    all_goals simp [h.fsm, h.assert_eq]
 
 theorem fsmApply_eq (s : Node) (qs : List QItem) : proj (s.fsmApply qs) = proj s := by
   unfold Node.fsmApply
@@ -152,7 +154,7 @@ theorem block : ∀ fuel : Nat,
       unfold checkConfigActions; dsimp only
       rw [foldl_eq (proj := proj)]
       · repeat' split
-        all_goals simp [ihDC, h.panic]
+        all_goals simp [ihDC, h.panic, h.popOrder]
       · intro s x; split <;> simp [ihCA]
     · -- checkConfigAction
       intro s t c id
@@ -161,12 +163,19 @@ theorem block : ∀ fuel : Nat,
       all_goals simp [ihDC, h.setRepl_eq]
     · -- setCommitIndexL
       intro s i
-      unfold setCommitIndexL; dsimp only
+      unfold setCommitIndexL
+      extract_lets s1 ready r s2 s3
+      have e2 : proj s2 = proj s := by
+        unfold s2 r s1; rw [h.setCommitIndexR_eq, h.commitLog_eq]
+      have e3 : proj s3 = proj s := by
+        unfold s3; split
+        · rw [ihCAs, e2]
+        · exact e2
       split
       · split
-        · rw [h.ldr, foldl_eq (proj := proj) _ (fun s t => h.reply _ _ _), h.setCommitIndexR_eq, h.commitLog_eq]
-        · rw [ihCAs, h.setCommitIndexR_eq, h.commitLog_eq]
-      · rw [h.setCommitIndexR_eq, h.commitLog_eq]
+        · rw [h.ldr, foldl_eq (proj := proj) _ (fun s t => h.reply _ _ _), e3]
+        · rw [ihCAs, e3]
+      · exact e3
     · -- onMajorityCommit
       intro s
       unfold onMajorityCommit; dsimp only
